@@ -308,11 +308,17 @@ pub fn run(args: &Args) {
         let big = kind.table_bytes > (4 << 20);
         let mid = kind.table_bytes > (600 << 10);
         let ncases = (if big { 150 } else if mid { 600 } else { 1500 }) * scale;
-        let ncorr = (if big { 4 } else if mid { 12 } else { 30 }) * scale.min(3);
+        // the model's bucket scans of the deep kinds (block_bits 8/9, H9) cost seconds per line
+        let ncorr = (if big { 2 } else if mid { 6 } else { 30 }) * scale.min(3);
         let every = (ncases / ncorr).max(1);
         let mut ctx = Ctx::new(&kind);
+        let mut want = false;
         for ci in 0..ncases {
+            if ci % every == 0 { want = true; }
+            // deep-bucket kinds: only short blocks go to the (slow) model; the oracle below judges every case
             let (c, stream, base) = gen_cbr(&kind, &ctx, &mut rng);
+            let emit = want && (!(big || mid) || c.num_bytes <= 256);
+            if emit { want = false; }
             rep.evaluations += 1;
             rep.count(&format!("kind.{}", kind.variant));
             rep.count(&format!("quality.{}", c.quality));
@@ -326,7 +332,7 @@ pub fn run(args: &Args) {
                     rep.count("panic");
                     let sig = "cbr:panic".to_string();
                     if !rep.violations.iter().any(|v| v.signature == sig) { rep.violations.push(Violation { signature: sig, what: "CreateBackwardReferences panicked".into(), case: case_json.clone() }); }
-                    if ci % every == 0 { if let Some(rq) = req.clone() { lines.push((rq, "panic".into())); } }
+                    if emit { if let Some(rq) = req.clone() { lines.push((rq, "panic".into())); } }
                 }
                 Some((o, ans)) => {
                     rep.add("commands", o.cmds.len() as u64);
@@ -339,7 +345,7 @@ pub fn run(args: &Args) {
                         }
                     }
                     if o.cmds.iter().any(|x| (x.copy_len_ >> 25) != 0) { rep.count("dict.reference_with_cut"); }
-                    if ci % every == 0 { if let Some(rq) = req.clone() { lines.push((rq, ans)); } }
+                    if emit { if let Some(rq) = req.clone() { lines.push((rq, ans)); } }
                 }
             }
         }
